@@ -36,6 +36,8 @@ import (
 	"github.com/siglens/siglens/pkg/ast/pipesearch"
 	"github.com/siglens/siglens/pkg/config"
 	eswriter "github.com/siglens/siglens/pkg/es/writer"
+	"github.com/siglens/siglens/pkg/hooks"
+	"github.com/siglens/siglens/pkg/segment/query"
 	"github.com/siglens/siglens/pkg/segment/writer"
 )
 
@@ -217,7 +219,43 @@ func c11StressMain() {
 	}()
 	var qid atomic.Uint64
 	qid.Store(5000)
-	runQ := func(stats bool) (vids []int, count int64, errs string) {
+	// observe (never delay) the two segment lists of every query through the product hook
+	var snapMu sync.Mutex
+	snaps := map[uint64][][]string{}
+	hooks.GlobalHooks.FilterQsrsHook = func(qsrs interface{}, qi interface{}, isRotated bool) (interface{}, error) {
+		if info, ok := qi.(*query.QueryInformation); ok {
+			var keys []string
+			if l, ok := qsrs.([]*query.QuerySegmentRequest); ok {
+				for _, r := range l {
+					keys = append(keys, r.GetSegKey())
+				}
+			}
+			snapMu.Lock()
+			snaps[info.GetQid()] = append(snaps[info.GetQid()], keys)
+			snapMu.Unlock()
+		}
+		return qsrs, nil
+	}
+	overlap := func(id uint64) string {
+		snapMu.Lock()
+		defer snapMu.Unlock()
+		l := snaps[id]
+		delete(snaps, id)
+		if len(l) < 2 {
+			return ""
+		}
+		in0 := map[string]bool{}
+		for _, k := range l[0] {
+			in0[k] = true
+		}
+		for _, k := range l[1] {
+			if in0[k] {
+				return k
+			}
+		}
+		return ""
+	}
+	runQid := func(stats bool, id uint64) (vids []int, count int64, errs string) {
 		now := uint64(time.Now().UnixMilli())
 		text := "*"
 		if stats {
@@ -227,7 +265,7 @@ func c11StressMain() {
 			"searchText": text, "startEpoch": float64(now - 3600_000), "endEpoch": float64(now + 3600_000),
 			"indexName": strings.Join(index, ","), "queryLanguage": "Splunk QL", "size": float64(100000), "from": float64(0),
 		}
-		resp, _, _, err := pipesearch.ParseAndExecutePipeRequest(body, qid.Add(1), 0, time.Now(), "", nil)
+		resp, _, _, err := pipesearch.ParseAndExecutePipeRequest(body, id, 0, time.Now(), "", nil)
 		if err != nil {
 			return nil, 0, err.Error()
 		}
@@ -274,6 +312,12 @@ func c11StressMain() {
 		}
 		return
 	}
+	runQ := func(stats bool) (vids []int, count int64, errs string) {
+		id := qid.Add(1)
+		vids, count, errs = runQid(stats, id)
+		overlap(id)
+		return
+	}
 	mustSee := func(b int64) []int {
 		var out []int
 		mu.Lock()
@@ -299,7 +343,9 @@ func c11StressMain() {
 				b := barrier.Load()
 				need := mustSee(b)
 				stats := (it+k)%3 == 2
-				vids, count, errs := runQ(stats)
+				id := qid.Add(1)
+				vids, count, errs := runQid(stats, id)
+				both := overlap(id)
 				nQueries.Add(1)
 				progress.Add(1)
 				if errs != "" {
@@ -314,7 +360,11 @@ func c11StressMain() {
 						fail("conc/count-below-flushed", fmt.Sprintf("count %d < %d events flushed before the query began", count, len(need)))
 					}
 					if count > int64(started) {
-						fail("conc/count-exceeds-ingested", fmt.Sprintf("count %d > %d events ever handed to ingest", count, started))
+						sig := "conc/count-exceeds-ingested"
+						if both != "" {
+							sig = "conc/counted-twice/segment-in-both-snapshots"
+						}
+						fail(sig, fmt.Sprintf("`* | stats count` returned %d > %d events ever handed to ingest; segment in both request lists: %q", count, started, both))
 					}
 					continue
 				}
